@@ -1471,10 +1471,38 @@ where
             has_update_signal && no_non_update_proposals
         });
 
-        mls_group.merge_pending_commit(&self.provider)?;
+        // Guard the merge with a storage snapshot: if the merged state cannot be mirrored in
+        // the stored group record (e.g. group data the storage layer refuses) the call fails,
+        // and a failed call must not leave the MLS group one epoch ahead of its record.
+        let guard_name = format!(
+            "merge_{}_{}",
+            hex::encode(group_id.as_slice()),
+            mls_group.epoch().as_u64()
+        );
+        self.storage()
+            .create_group_snapshot(group_id, &guard_name)
+            .map_err(Error::Storage)?;
 
-        // Sync the stored group metadata with the updated MLS group state
-        self.sync_group_metadata_from_mls(group_id)?;
+        let merged = mls_group
+            .merge_pending_commit(&self.provider)
+            .map_err(Error::from)
+            // Sync the stored group metadata with the updated MLS group state
+            .and_then(|_| self.sync_group_metadata_from_mls(group_id));
+
+        if let Err(e) = merged {
+            if self
+                .storage()
+                .rollback_group_to_snapshot(group_id, &guard_name)
+                .is_err()
+            {
+                tracing::warn!(
+                    target: "mdk_core::groups::merge_pending_commit",
+                    "Failed to restore the group after a pending commit that could not be stored"
+                );
+            }
+            return Err(e);
+        }
+        let _ = self.storage().release_group_snapshot(group_id, &guard_name);
 
         // If this was actually a self-update commit, record the timestamp.
         // This correctly handles:
